@@ -20,13 +20,18 @@ impl TryFrom<String> for BuildpackApi {
         // If no minor version is specified, it defaults to `0`.
         let (major, minor) = &value.split_once('.').unwrap_or((&value, "0"));
 
+        // `u64::from_str` accepts a leading `+`, which isn't valid in a Buildpack API version.
+        let parse_part = |part: &str| {
+            part.bytes()
+                .all(|byte| byte.is_ascii_digit())
+                .then(|| part.parse().ok())
+                .flatten()
+                .ok_or_else(|| Self::Error::InvalidBuildpackApi(value.clone()))
+        };
+
         Ok(Self {
-            major: major
-                .parse()
-                .map_err(|_| Self::Error::InvalidBuildpackApi(value.clone()))?,
-            minor: minor
-                .parse()
-                .map_err(|_| Self::Error::InvalidBuildpackApi(value.clone()))?,
+            major: parse_part(major)?,
+            minor: parse_part(minor)?,
         })
     }
 }
